@@ -411,6 +411,41 @@ ROUND_HOISTERS = [
 ]
 
 # ----------------------------------------------------------------------
+# T3 the overflow policy of a bounded float format is read off BOTH probes
+
+def t3_overflow_policy(ctx: Ctx):
+    """`_overflow_policy` rounds a value past each bound and names the policy: infinite (+inf and -inf), NaN (both NaN),
+    saturating (each bound kept, with its sign).  Anything asymmetric -- a substitute on one side -- has no fixed-point
+    counterpart and must be declined.  The decision tail is evaluated for every pair of probe outcomes."""
+    from ..minipy import Interp, Obj
+    q = '_overflow_policy'
+    fn = ctx.fn(F2F, q)
+    tries = [i for i, s in enumerate(fn.body) if isinstance(s, ast.Try)]
+    if len(tries) != 1:
+        raise ShapeError('_overflow_policy: probe block not found')
+    tail = fn.body[tries[0] + 1:]
+
+    def probe(kind: str) -> Obj:
+        real = {'max': 'MAX', 'negmax': 'NEGMAX', 'other': 'OTHER'}.get(kind)
+        return Obj('Float', isinf=kind in ('+inf', '-inf'), isnan=kind == 'nan', s=kind in ('-inf', 'negmax'),
+                   is_nar=(lambda k=kind: k in ('+inf', '-inf', 'nan')), as_real=(lambda r=real: r))
+    kinds = ('+inf', '-inf', 'nan', 'max', 'negmax', 'other')
+    bad = None
+    n = 0
+    for kp in kinds:
+        for kn in kinds:
+            it = Interp({}, globals_={'maxval': 'MAX', 'neg_maxval': 'NEGMAX'})
+            got = it.run_stmts(tail, {'pos': probe(kp), 'neg': probe(kn)})
+            n += 1
+            want = ('enum', '_Policy', 'INFINITE') if (kp, kn) == ('+inf', '-inf') else ('enum', '_Policy', 'NAN_ON_OVERFLOW') if (kp, kn) == ('nan', 'nan') \
+                else ('enum', '_Policy', 'SATURATING') if (kp, kn) == ('max', 'negmax') else None
+            if got != want and bad is None:
+                bad = f'past the positive bound -> {kp}, past the negative bound -> {kn}: policy {got[2] if got else None}, expected {want[2] if want else "declined"}'
+    ctx.check(bad is None, F2F, fn, q, f'the policy is named only when both probes agree with it ({n} outcome pairs)',
+              (bad or '') + ': a context whose two sides overflow differently would be lowered to a fixed-point context that treats them alike')
+
+
+# ----------------------------------------------------------------------
 # F3 rebuilt formats / contexts carry every parameter over under its own name
 
 def f3_rebuild_parameters(ctx: Ctx):
@@ -422,6 +457,7 @@ def f3_rebuild_parameters(ctx: Ctx):
 
 
 RULES = [
+    Rule('C10.T3', 'float-to-fixed: the overflow policy is accepted only when both overflow probes show it', t3_overflow_policy, 1, 'T'),
     Rule('C10.F3', 'a rebuilt format / context receives every carried-over parameter under its own name (no swapped or shifted arguments)', f3_rebuild_parameters, 30, 'F'),
     Rule('C10.T1', 'overflow unfolding: emitter and verifier use the same (operand, comparator, threshold) pairs; strict for maxval, non-strict for infval', t1_threshold_pairing, 13, 'T,F'),
     Rule('C10.X1', 'block rewriters refuse what they cannot reproduce: unknown context first, class ladders end in Declined', x1_refusal_defaults, 30, 'X,P'),
@@ -435,6 +471,9 @@ RULES = [
 from ..selftest import Mutant  # noqa: E402
 
 MUTANTS = [
+    Mutant('saturation-read-off-one-probe', F2F, "        if pos.as_real() == maxval and neg.as_real() == neg_maxval:", "        if pos.as_real() == maxval:", 'C10.T3', 'seeded change C10b'),
+    Mutant('infinite-policy-ignores-negative-side', F2F, "    if pos.isinf and neg.isinf and not pos.s and neg.s:", "    if pos.isinf and not pos.s:", 'C10.T3'),
+    Mutant('nan-policy-either-side', F2F, "    if pos.isnan and neg.isnan:", "    if pos.isnan or neg.isnan:", 'C10.T3'),
     Mutant('shifted-format-swaps-nan-inf', RESCALE, "                fmt.nmin + k, fmt.enable_nan, fmt.enable_inf, fmt.enable_neg_zero,\n            )\n        case _:", "                fmt.nmin + k, fmt.enable_inf, fmt.enable_nan, fmt.enable_neg_zero,\n            )\n        case _:", 'C10.F3',
            'seeded change C10a: a NaN-only fixed-point context comes back infinity-only after rescale_fixed'),
     Mutant('rescaled-context-swaps-substitutes', RESCALE, "        'inf_value': ctx.inf_value,\n        'nan_value': ctx.nan_value,", "        'inf_value': ctx.nan_value,\n        'nan_value': ctx.inf_value,", 'C10.F3'),
